@@ -45,10 +45,16 @@ def mkAcs (env : Json) : List (Conv String) :=
     | [.str nf, tbl] => some ({ nameFormat := nf, fro := (asArr tbl).filterMap strPair? } : Conv String)
     | _ => none
 
+/-- a non-`str` (int) identity value is a token no `str` value can equal -/
+def valItem? : Json → Option String
+  | .str s => some s
+  | .num n => some ("\x01int:" ++ toString n)
+  | _ => none
+
 def parseVal (j : Json) : Val String :=
   match str? j "s" with
   | some s => .scalar s
-  | none => .list (strList j "l")
+  | none => .list ((arrD j "l").filterMap valItem?)
 
 def parseAva (js : List Json) : Ava String :=
   js.filterMap fun e =>
@@ -68,12 +74,16 @@ def uriFormat : String := "urn:oasis:names:tc:SAML:2.0:attrname-format:uri"
 
 /-- `fromMd`: the metadata parser supplies the class default for an absent NameFormat and drops
     an empty FriendlyName. -/
+def strip (s : String) : String := s.trimAscii.toString
+
 def parseReq (fromMd : Bool) (j : Json) : ReqAttr String :=
-  let vals := strList j "values"
-  let nf := str? j "name_format"
-  { name := strD j "name",
+  -- the metadata parser strips surrounding white space of XML attribute values and element text
+  let norm := fun (s : String) => if fromMd then strip s else s
+  let vals := (strList j "values").map norm
+  let nf := (str? j "name_format").map norm
+  { name := norm (strD j "name"),
     nameFormat := if fromMd then some (nf.getD unspecified) else nf,
-    friendlyName := if fromMd then (str? j "friendly_name").filter (· != "") else str? j "friendly_name",
+    friendlyName := if fromMd then ((str? j "friendly_name").map norm).filter (· != "") else str? j "friendly_name",
     values := vals.filter (· != ""),
     noText := vals.any (· == "") }
 
@@ -251,7 +261,7 @@ def handleOne (cs impl : Json) : Json :=
   let md := if hasMds then mdSp.getD Json.null else Json.null
   let c : Ctx String String :=
     { S := S, M := mkMatch env, acs := mkAcs env, secs := parseSections custom cs, dflt := "default",
-      sp := sp, ra := str? md "ra", hasMds := hasMds, spCats := strList md "cats" }
+      sp := sp, ra := (str? md "ra").map strip, hasMds := hasMds, spCats := (strList md "cats").map strip }
   let identity := parseAva (arrD cs "identity")
   let unchanged := boolD impl "unchanged" true
   let secN := secName c
